@@ -17,6 +17,7 @@ RULE = ("one evaluation = one (step, observed object) pair of a history: after a
         "60 built-in conversions bit for bit (D4); the built-in unit systems (D5) - must equal its observation before the step; plus: "
         "result registry of binary operations is the left operand's, modify/remove through every handle on the default registry raise, "
         "a freshly created independent registry shares no table object with any other, units resolved through a registry are bound to it, "
+        "an edit that changed a registry's table renewed its unit_system_id (the hash that separates registries in the shared memo tables), "
         "namespaces made by add_symbols/add_constants are bound to the given registry, at the end the default registry resolves the full probe "
         "set like a cold twin built from its table (custom registries: noted). distinct = (step kind, observed object class/provenance, relation to the addressed registry)")
 ASSUMPTIONS = (
@@ -89,7 +90,7 @@ STEPS = [
 KINDS = [k for k, _ in STEPS if k != "create"] + ["create/" + p for p, _ in PROVS] + ["final/bound", "final/twin"]
 SUBMONITORS = ["mon:foreign-registry-unchanged", "mon:D1-default_unit_symbol_lut", "mon:D2-default-registry", "mon:D3-namespace",
                "mon:D4-conversions", "mon:D5-unit-systems", "mon:result-registry-left", "mon:default-refusal", "mon:create-no-shared-table",
-               "mon:resolved-unit-bound", "mon:namespace-bound", "mon:final-twin", "mon:recorder-armed"]
+               "mon:resolved-unit-bound", "mon:namespace-bound", "mon:final-twin", "mon:recorder-armed", "mon:content-id-renewed"]
 
 
 def batches(tier, seed):
@@ -755,11 +756,34 @@ class History:
         """run an edit addressed to slot s; nonmod/alias-of-default rules handled here"""
         root = self.root(s)
         try:
+            uid0 = s.reg.unit_system_id
+        except Exception:
+            uid0 = None
+        try:
             call(self.handle(s))
             raised = None
         except Exception as e:
             raised = e
             self.note_exc(e)
+        # the content id (unit_system_id) is what keeps the units of different registries apart in the process-wide memo
+        # tables of the unit rules and in unit_system_registry: an edit that changed the table must renew it
+        if uid0 is not None:
+            removed, changed, added = W.table_diff(s.tab, s.reg.lut)
+            # lookup-derived prefixed entries come and go without the id following them (benign): only the core counts
+            removed = [k for k in removed if not W.is_derived(k, s.tab[k], s.tab)]
+            if removed or changed or [k for k in added if not W.is_derived(k, s.reg.lut[k], s.reg.lut)]:
+                self.rec.count("mon:content-id-renewed")
+                try:
+                    uid1 = s.reg.unit_system_id
+                except Exception:
+                    uid1 = None
+                if uid1 == uid0:
+                    self.rec.violation("C13:%s:content-id-not-renewed" % self.kind,
+                                       "%s changed the table of registry R but R.unit_system_id (the hash under which R's units are memoised "
+                                       "process-wide, next to those of every other registry) is still the one of the old contents" % detail,
+                                       self.case(detail=detail))
+                else:
+                    self.rec.ok((self.kind, "content-id-renewed", s.prov))
         if root.is_default:
             # shallow alias of the default registry: modify/remove must have raised (judged by caller); nothing is addressed
             return {"detail": detail + " via alias-of-default", "addressed": () if raised else (s,), "target": s, "raised": raised}
@@ -1450,7 +1474,7 @@ class History:
 
     def s_mixed_modify_with_foreign_quantity(self):
         sa, sb = self.two_slots()
-        if sa is None or sa.is_default or self.root(sa).is_default:
+        if sa is None or sa.is_default or self.root(sa).is_default or self.root(sa) is self.root(sb):
             return {"detail": "none"}
         b = self.operand(sb)
         if b is None or not getattr(b, "shape", None) == ():
